@@ -357,6 +357,7 @@ func (ex *Exec) runPath(h *Harness, prefix []int32) (reason string) {
 	ex.streams = nil
 	ex.uuids = nil
 	ex.pools = nil
+	ex.heldLocks = nil
 	ex.nuuid = 0
 	ex.onceDone = nil
 	defer func() {
